@@ -173,7 +173,7 @@ def _build_exprs(world, fspecs, cspecs):
 
 EXCL_RC1_FUNCS = "two unlabeled functions of the same name in one select list (known finding: duplicate detection skipped, key answers with another column)"
 EXCL_RC1_GENLIKE = "explicit label shaped like a generated / de-duplicated label (anon_1, a_1): may collide with one (known finding: duplicate detection skipped)"
-EXCL_RC1_TRUNC = "the same column selected more than once next to another column / label of the same name: de-duplicated proxy keys (a_N) collide with result keys (known finding: duplicate detection skipped -> wrong column, or spurious Ambiguous)"
+EXCL_RC1_TRUNC = ">=3 select-list entries share one name and are not all distinct plain columns (repeated column, or explicit labels of that name): de-duplicated proxy keys (a_N) collide with result keys (known finding: duplicate detection skipped -> wrong column, or spurious Ambiguous)"
 EXCL_RC2_UNARY = "unlabeled unary minus over a column that is also selected (known finding: both share one result-map entry, column object lookup raises Ambiguous)"
 EXCL_RC3_TQ = "result key / explicit label equal to the legacy tablename_colname of another selected column (known finding: raises Ambiguous)"
 EXCL_RC1_TEXTNAME = "text().columns(name=type) where the SQL returns that name more than once (known finding: duplicate detection skipped)"
@@ -194,7 +194,23 @@ def _known_exclusions_simple(recs, case, info):
         trig.append(EXCL_RC1_FUNCS)
     if labels & set(GENLIKE):
         trig.append(EXCL_RC1_GENLIKE)
-    plain = [r for r in recs if r["kind"] == "col"]
+    byname = {}
+    for r in recs:
+        nm = r["label"] if r["label"] else (r["cname"] if r["kind"] in ("col", "neg") else None)
+        if nm is not None:
+            byname.setdefault(nm, []).append(r)
+    for nm, ents in byname.items():
+        # three or more entries of one name are only de-duplicated consistently (a, a_1, a_2) when they are distinct plain columns
+        if len(ents) >= 3 and not (all(e["kind"] == "col" and not e["label"] for e in ents) and len({e["colid"] for e in ents}) == len(ents)):
+            trig.append(EXCL_RC1_TRUNC)
+            break
+    if case.get("label_length") == 7 and EXCL_RC1_TRUNC not in trig:
+        # label_length 7 truncates generated names to <first letter>_<n>: anon_1 / abs_1 / a__1 all become a_N, the
+        # shape of the de-duplicated (proxy) keys of columns named "a"
+        a_like = [r for r in recs if (r["kind"] in ("col", "neg") and r["cname"] == "a" and not r["label"]) or r["kind"] in ("add", "func")]
+        if len(a_like) >= 2 and any(r["kind"] in ("col", "neg") for r in a_like):
+            trig.append(EXCL_RC1_TRUNC)
+    plain = [r for r in recs if r["kind"] == "col"] if EXCL_RC1_TRUNC not in trig else []
     for r in plain:
         if sum(1 for q in plain if q["colid"] == r["colid"]) > 1 and any(
             (q["kind"] in ("col", "neg") and q["cname"] == r["cname"] and q["colid"] != r["colid"]) or q["label"] == r["cname"] for q in recs
